@@ -1,6 +1,6 @@
-\* spec mutant: the mechanism variant "or_catches_all" (see GlomErrors.tla) must violate a law
+\* spec mutant: the mechanism variant "arg_in_guard" (see GlomErrors.tla) must violate a law
 CONSTANTS
-  Mutant = "or_catches_all"
+  Mutant = "arg_in_guard"
   MinDepth = 0
   MaxDepth = 1
   Rich = TRUE
